@@ -52,6 +52,11 @@ type DADouble struct {
 	LastOffered int
 	// Quiet suppresses the DAGet / DAGetIDs records (bulk scenarios).
 	Quiet bool
+	// AtSubmitGate, when set, is called when a Submit call starts waiting at the gate.
+	AtSubmitGate func()
+	// GateIgnoresCtx: a Submit call held at SubmitGate does not give up when its context ends (an in-process DA
+	// layer, or a request that already left for the network): it completes when the gate opens.
+	GateIgnoresCtx bool
 	// ErrWrap is how a scripted failure of the DA interface's error values is dressed: "" (the bare value),
 	// "front" (context in front of it), "back" (detail behind it), "both".
 	ErrWrap string
@@ -123,7 +128,12 @@ func (d *DADouble) Submit(ctx context.Context, blobs []coreda.Blob, gasPrice flo
 }
 
 func (d *DADouble) SubmitWithOptions(ctx context.Context, blobs []coreda.Blob, gasPrice float64, namespace []byte, options []byte) ([]coreda.ID, error) {
-	if d.SubmitGate != nil {
+	if d.SubmitGate != nil && d.GateIgnoresCtx {
+		if d.AtSubmitGate != nil {
+			d.AtSubmitGate()
+		}
+		<-d.SubmitGate
+	} else if d.SubmitGate != nil {
 		select {
 		case <-d.SubmitGate:
 		case <-ctx.Done():
